@@ -11,8 +11,14 @@ public final class ChecksumServiceFactory {
         return INSTANCE;
     }
 
+    /** monitor side: the driver empties / restores the registry between encodes (case kind U) */
+    public static volatile boolean verifEnabled = true;
+
     @SuppressWarnings("unchecked")
     public <B, T> ChecksumService<B, T> getChecksumService(String name) {
+        if (!verifEnabled) {
+            return null;
+        }
         if (!java.util.Arrays.asList("SUM8", "CRC16", "CRC32", "CRC64", "Xor8", "Add16", "Mix32", "Mix64").contains(name)) {
             return null;   // names are case-sensitive
         }
